@@ -117,7 +117,31 @@ func runnerE2Exec(prop string) func(any, *simcheck.Ctx) *simcheck.Violation {
 				continue
 			}
 			h.w.events = nil
+			h.w.running, h.w.maxRunning = 0, 0
 			res := h.build(i, op, h.pc, nil)
+			cyclicNow := specCyclic(h.p, op.Label)
+			if prop == "C09" {
+				if h.w.maxRunning > h.pc.NumCPU {
+					return simcheck.V("limit-exceeded", "%d target bodies were running at once in a build of %s with a parallelism limit of %d", h.w.maxRunning, op.Label, h.pc.NumCPU)
+				}
+				if v := procFailure(res); v != nil {
+					if v.Class == simcheck.EngineError {
+						return v
+					}
+					if !cyclicNow && (v.Class == "deadlock" || v.Class == "no-termination") {
+						v.Class = "limit-deadlock"
+						v.Msg = "acyclic project does not finish building " + op.Label + " with parallelism limit " + itoa(h.pc.NumCPU) + ": " + v.Msg
+						return v
+					}
+					return nil
+				}
+				if h.pc.NumCPU == 1 {
+					c.St.Probes["project_built_at_limit_1"]++
+				}
+				c.St.Count("project_builds_checked", 1)
+				first = false
+				continue
+			}
 			if v := procFailure(res); v != nil {
 				if v.Class == simcheck.EngineError {
 					return v
@@ -246,7 +270,7 @@ func itoa(n int) string {
 }
 
 func init() {
-	for _, id := range []string{"C04", "C05"} {
+	for _, id := range []string{"C04", "C05", "C09"} {
 		e2Props[id] = &simcheck.Prop{ID: id, Gen: runnerE2Gen, New: newHistScenario, Exec: runnerE2Exec(id), Simplify: histSimplify}
 	}
 }
